@@ -988,10 +988,8 @@ func (r *Runner) runPar(ctx context.Context, st *Stack, b *Base, op Op) {
 					return
 				case <-time.After(10 * time.Second):
 				}
-				buf := make([]byte, 1<<22)
-				n := runtime.Stack(buf, true)
-				inLock := strings.Count(string(buf[:n]), "sync.(*Mutex).Lock") + strings.Count(string(buf[:n]), "sync.(*RWMutex).Lock") + strings.Count(string(buf[:n]), "sync.(*RWMutex).RLock")
-				r.Log.Emit(Ev{"ev": "Watchdog", "r": op.ID, "goroutines_in_mutex_lock": inLock})
+				inLock, waiting := stuckEvidence()
+				r.Log.Emit(Ev{"ev": "Watchdog", "r": op.ID, "goroutines_in_mutex_lock": inLock, "waiting_in_dirk": waiting})
 			}
 			// The parked goroutines can never finish; report and abandon the process.
 			r.Log.Emit(Ev{"ev": "Abandon", "r": op.ID, "deadlock": res.Deadlock})
@@ -1007,12 +1005,90 @@ func (r *Runner) runPar(ctx context.Context, st *Stack, b *Base, op Op) {
 	select {
 	case <-done:
 	case <-time.After(30 * time.Second):
-		buf := make([]byte, 1<<22)
-		n := runtime.Stack(buf, true)
-		inLock := strings.Count(string(buf[:n]), "sync.(*Mutex).Lock") + strings.Count(string(buf[:n]), "sync.(*RWMutex).Lock") + strings.Count(string(buf[:n]), "sync.(*RWMutex).RLock")
-		r.Log.Emit(Ev{"ev": "Watchdog", "r": op.ID, "goroutines_in_mutex_lock": inLock})
+		inLock, waiting := stuckEvidence()
+		r.Log.Emit(Ev{"ev": "Watchdog", "r": op.ID, "goroutines_in_mutex_lock": inLock, "waiting_in_dirk": waiting})
 		os.Exit(3)
 	}
+}
+
+// stuckEvidence looks at what the goroutines of the process are doing once a group of requests has not finished within the watchdog
+// period.  inLock counts goroutines inside a mutex acquisition.  waiting lists the goroutines that are BLOCKED (channel operation,
+// select, semaphore, mutex, condition, wait group) at a wait issued by the repository's own code - the innermost frame that is not the
+// Go runtime or package sync belongs to github.com/attestantio/dirk - on behalf of a request, and that are in exactly the same place
+// 2.5 and 5 seconds later while no request of the process gets an answer: requests that wait for something nobody is going to do.
+func stuckEvidence() (int, []string) {
+	snap := func() (int, map[string]string, bool) {
+		buf := make([]byte, 1<<23)
+		n := runtime.Stack(buf, true)
+		txt := string(buf[:n])
+		inLock := strings.Count(txt, "sync.(*Mutex).Lock") + strings.Count(txt, "sync.(*RWMutex).Lock") + strings.Count(txt, "sync.(*RWMutex).RLock")
+		blocked := map[string]string{}
+		active := false
+		for _, g := range strings.Split(txt, "\n\n") {
+			lines := strings.Split(strings.TrimSpace(g), "\n")
+			if len(lines) < 2 || !strings.HasPrefix(lines[0], "goroutine ") {
+				continue
+			}
+			hdr := lines[0]
+			o, c := strings.Index(hdr, "["), strings.LastIndex(hdr, "]")
+			if o < 0 || c < o {
+				continue
+			}
+			state, _, _ := strings.Cut(hdr[o+1:c], ",")
+			gid := strings.Fields(hdr)[1]
+			first := ""
+			hasDirk := false
+			for i := 1; i < len(lines); i += 2 {
+				fn := strings.TrimSpace(lines[i])
+				if strings.HasPrefix(fn, "created by ") {
+					break
+				}
+				if strings.Contains(fn, "github.com/attestantio/dirk/") {
+					hasDirk = true
+				}
+				if first == "" && !strings.HasPrefix(fn, "runtime.") && !strings.HasPrefix(fn, "sync.") && !strings.HasPrefix(fn, "internal/") && !strings.HasPrefix(fn, "sync/") {
+					first = fn
+				}
+			}
+			// (a request's goroutine: called from the harness' runner, or a worker the repository's Scatter started for it; the
+			// repository's background loops - storage garbage collection, expiry tickers - wait in its code for ever by design)
+			isRequest := strings.Contains(g, "verifharness/world.") || strings.Contains(g, "created by github.com/attestantio/dirk/util.Scatter")
+			switch state {
+			case "chan receive", "chan send", "select", "semacquire", "sync.Mutex.Lock", "sync.RWMutex.RLock", "sync.RWMutex.Lock", "sync.Cond.Wait", "sync.WaitGroup.Wait", "chan receive (nil chan)", "select (no cases)":
+				if isRequest && strings.HasPrefix(first, "github.com/attestantio/dirk/") && !strings.Contains(first, "/dirk/testing/") {
+					if k := strings.LastIndex(first, "("); k > 0 {
+						first = first[:k]
+					}
+					blocked[gid] = state + " in " + strings.TrimPrefix(first, "github.com/attestantio/dirk/")
+				}
+			case "running", "runnable", "syscall":
+				if hasDirk && !strings.Contains(g, "world.stuckEvidence") {
+					active = true
+				}
+			}
+		}
+		return inLock, blocked, active
+	}
+	// (three looks over five seconds, after the watchdog period; no request of the process was answered in between)
+	r0 := responded.Load()
+	inLock, b1, _ := snap()
+	time.Sleep(2500 * time.Millisecond)
+	_, b2, _ := snap()
+	time.Sleep(2500 * time.Millisecond)
+	_, b3, _ := snap()
+	waiting := []string{}
+	if responded.Load() == r0 {
+		for gid, where := range b1 {
+			if b2[gid] == where && b3[gid] == where {
+				waiting = append(waiting, where)
+			}
+		}
+	}
+	sort.Strings(waiting)
+	if len(waiting) > 12 {
+		waiting = waiting[:12]
+	}
+	return inLock, waiting
 }
 
 // runScatter runs the real util.Scatter for a batch of op.N items under GOMAXPROCS op.P and logs the extents.
